@@ -60,8 +60,8 @@ def singleCp (alphabetOrAny : List Nat) : Option Nat :=
   match alphabetOrAny with
   | [a] => if a < 0x80 then some a else none
   | [a, b] => if 0xC2 ≤ a && a ≤ 0xDF && isCont b then some ((a - 0xC0) * 64 + (b - 0x80)) else none
-  | [a, b, c] => if validUtf8 [a, b, c] then some ((a - 0xE0) * 4096 + (b - 0x80) * 64 + (c - 0x80)) else none
-  | [a, b, c, d] => if validUtf8 [a, b, c, d] then some ((a - 0xF0) * 262144 + (b - 0x80) * 4096 + (c - 0x80) * 64 + (d - 0x80)) else none
+  | [a, b, c] => if 0xE0 ≤ a && a ≤ 0xEF && validUtf8 [a, b, c] then some ((a - 0xE0) * 4096 + (b - 0x80) * 64 + (c - 0x80)) else none
+  | [a, b, c, d] => if 0xF0 ≤ a && a ≤ 0xF4 && validUtf8 [a, b, c, d] then some ((a - 0xF0) * 262144 + (b - 0x80) * 4096 + (c - 0x80) * 64 + (d - 0x80)) else none
   | _ => none
 
 def charTokenToId (cfg : CharCfg) (t : List Nat) : Option Nat :=
